@@ -882,7 +882,7 @@ def corpus_first(ctx, d, exe, emb, C):
             if m != i:
                 ctx.violation("corpus:inner", input=q, expected=m, observed=i, replay=replay_inner(d, emb, q))
     if pairs:
-        out = scm.run_cases(d, ["(c15-pair %s %s)" % (a, b) for a, b, e in pairs], prelude_extra=PRELUDE, imports=IMPORTS)
+        out = scm.run_cases(d, ["(c15-pair %s %s)" % (a, b) for a, b, e in pairs], prelude_extra=PRELUDE, imports=IMPORTS, max_dead=3)
         for (a, b, e), o in zip(pairs, out):
             o = unquote(o) or ""
             ctx.count(1, key=("corpus", a, b))
@@ -1007,7 +1007,7 @@ def outer_pairs(ctx, d, exe, C, n):
         meta.append((("sym", nm), ("sym", nm), "same"))
     exprs.append("(c15-pair +nan.0 +nan.0)")
     meta.append((("flo", 0x7ff8000000000000), ("flo", 0x7ff8000000000000), "nan"))
-    out = scm.run_cases(d, exprs, prelude_extra=PRELUDE, imports=IMPORTS)
+    out = scm.run_cases(d, exprs, prelude_extra=PRELUDE, imports=IMPORTS, max_dead=3)
     hreq = []
     for (a, b, cls) in meta:
         hreq.append("hash %s %x" % (token(a, C) if tokenable(a) else "i0", MAXFIX))
@@ -1057,7 +1057,7 @@ def outer_pairs(ctx, d, exe, C, n):
     fixed = ["(c15-pair (expt 2 100) (- (expt 2 300) (- (expt 2 300) (expt 2 100))))",
              "(let ((ht (make-hash-table))) (hash-table-set! ht (expt 2 100) 'x) (symbol->string (hash-table-ref/default ht (- (expt 2 300) (- (expt 2 300) (expt 2 100))) 'miss)))",
              "(c15-pair (utf8->string! (bytevector 97 98 99 100 101 102) 2 5) (string #\\c #\\d #\\e))"]
-    fo = [unquote(x) for x in scm.run_cases(d, fixed, prelude_extra=PRELUDE, imports=IMPORTS)]
+    fo = [unquote(x) for x in scm.run_cases(d, fixed, prelude_extra=PRELUDE, imports=IMPORTS, max_dead=3)]
     ctx.count(3, key="F-C15-1/2")
     f0 = (fo[0] or "").split(" ")
     if not (len(f0) >= 3 and f0[0][:2] == "11" and f0[1] == f0[2]) or fo[1] != "x":
@@ -1101,7 +1101,7 @@ def outer_cycles(ctx, d, n):
     exprs.append("(let ((v (vector 1 #f)) (w (vector 1 #f)) (u (vector 1 #f))) (vector-set! v 1 v) (vector-set! w 1 u) (vector-set! u 1 w) "
                  "(string-append (c15-b (equal? v w)) (c15-b (equal? w v)) (c15-b (equal? v v)) (c15-b (= (hash v) (hash w)))))")
     meta.append(True)
-    out = scm.run_cases(d, exprs, prelude_extra=PRELUDE, imports=IMPORTS, timeout=300)
+    out = scm.run_cases(d, exprs, prelude_extra=PRELUDE, imports=IMPORTS, max_dead=3, timeout=300)
     for e, same, o in zip(exprs, meta, out):
         ctx.count(1, key=e)
         o = unquote(o)
@@ -1430,7 +1430,7 @@ def graphs(ctx, d, exe, C, nbase, nrand, big):
         bigs.append(("big%d" % n, "list element in the tail", "(let* ((a (make-list %d 1)) (b (make-list %d 1))) (set-car! (list-tail b %d) 2) (c15-geq a b))" % (n, n, n - 1), False))
         bigs.append(("big%d" % n, "equal lists", "(let* ((a (make-list %d 1)) (b (make-list %d 1))) (c15-geq a b))" % (n, n), True))
     exprs += [e for (_, _, e, _) in bigs]
-    out = [unquote(x) for x in scm.run_cases(d, exprs, prelude_extra=PRELUDE + GEQ_PRELUDE, imports=IMPORTS + GEQ_IMPORTS, chunk=400, timeout=900)]
+    out = [unquote(x) for x in scm.run_cases(d, exprs, prelude_extra=PRELUDE + GEQ_PRELUDE, imports=IMPORTS + GEQ_IMPORTS, max_dead=3, chunk=400, timeout=900)]
     # the extracted side
     greq = ["geq %s %d %d" % (g_token(n, C), a, b) for (_, _, n, a, b, _) in cases] + ["gmod %s %d %d" % (g_token(n, C), a, b) for (_, _, n, a, b, _) in dag_cases]
     gm = ctx.run_model(exe, greq)
@@ -1552,7 +1552,7 @@ def shared_strings(ctx, d, exe, C, n):
             o1, o2 = o2, o1
         exprs.append("(let* ((bv (bytevector %s)) (s1 (utf8->string! bv %d %d)) (s2 (utf8->string! bv %d %d))) (string-append (c15-pair s1 s2) \" \" (c15-shared s1 s2)))"
                      % (" ".join(map(str, bs)), o1, o1 + L, o2, o2 + L))
-    out = [unquote(x) for x in scm.run_cases(d, exprs, prelude_extra=PRELUDE + SHARED_PRELUDE, imports=IMPORTS)]
+    out = [unquote(x) for x in scm.run_cases(d, exprs, prelude_extra=PRELUDE + SHARED_PRELUDE, imports=IMPORTS, max_dead=3)]
     for (bs, L, o1, o2, same), e, o in zip(pick, exprs, out):
         ctx.count(1, key=e, nontrivial=True)
         f = (o or "").split(" ")
@@ -1626,7 +1626,7 @@ def arith_results(ctx, d, n_draws):
     exprs = []
     for e, lit, cs in uniq:
         exprs.append("(let ((r %s)) (string-append (c15-num r %s) %s))" % (e, lit, '(case r ((%s) "1") (else "0"))' % lit if cs else '"1"'))
-    out = [unquote(x) for x in scm.run_cases(d, exprs, prelude_extra=PRELUDE, imports=IMPORTS)]
+    out = [unquote(x) for x in scm.run_cases(d, exprs, prelude_extra=PRELUDE, imports=IMPORTS, max_dead=3)]
     for (e, lit, cs), x, o in zip(uniq, exprs, out):
         op = e[1:].split(" ")[0] if e.startswith("(") else "literal"
         big_operand = True
